@@ -3,18 +3,21 @@
 import os
 import vcommon as vc
 
-RULE = ("cases = (ntype, direction, count, strides, in-place/disjoint offsets, random bytes) drawn from one PRNG "
+RULE = ("DFKconvert cases = (ntype, direction, count, strides, in-place/disjoint offsets, random bytes) drawn from one PRNG "
         "(VERIF_SEED): every supported type x flavour x direction, counts 1..9, strides {0/0, w, w+1..3w}, "
         "in-place (same layout and packing with destination stride <= source stride) and both disjoint orders; a decoy DFKsetNT of another type precedes every DFKconvert; plus unsupported types and count 0 (must FAIL); plus all 2^8 "
         "one-byte and a 2^16 sweep of two-byte patterns per 16-bit type (thorough: every 16-bit pattern). "
         "A case is non-trivial when it lies in the property's domain and moves at least one byte; distinct by "
-        "(type, direction, geometry, data)")
+        "(type, direction, geometry, data).  API cases = (interface in SD, SD in two partial writes, Vdata n records, Vdata order n, GR) x "
+        "every base type x flavour x lengths {1..13} x {asymmetric, random} values: raw bytes in the file, values read back and "
+        "DFKconvert of the raw element are compared with specification and input")
 TRUSTED = ["Coq 8.16.1 kernel (vm_compute used for finite sweeps; no native_compute)",
            "translator gen/gen_consts.py (kinds consts, switch_assign, switch_return, byte_loops) run on "
            "hntdefs.h, dfconv.c, dfkswap.c, dfknat.c through gcc -E",
            "extraction: Require Extraction + ExtrOcamlBasic (Extract Inductive bool,option,unit,list,prod,sumbool,sumor); "
            "no Extract Constant; Z/positive/nat extracted as inductives",
-           "OCaml driver extract/conv_main.ml, C harness harness/drive_conv.c, comparison in checks/C06.py",
+           "OCaml driver extract/conv_main.ml, C harnesses harness/drive_conv.c and harness/drive_convapi.c (which trusts "
+           "SDgetdatainfo/VSgetdatainfo/GRgetdatainfo to locate the raw data), comparison in checks/C06.py",
            "modelled, not verified: control skeleton of DFKsb*/DFKnb* (which loop runs when), DFKconvert glue, "
            "uint32 wrap of counts/strides (inputs kept < 2^31)"]
 ASSUMPTIONS = ["host is little-endian (H4_WORDS_BIGENDIAN undefined; resolved by gcc -E in the translator)",
@@ -160,10 +163,107 @@ def run(ctx):
                       "# C06 crash; first unprocessed case:\n" + fmt(cases[min(len(R), len(cases) - 1)]) + "\n" +
                       "\n".join(R[-15:]), found=True)
     ctx.corr("DFKconvert~model~spec", **stats)
+    if len(ctx.violations) < 3:
+        run_api(ctx)
+
+
+API_NAMES = {1: "SD", 2: "VS(n records)", 3: "VS(order n)", 4: "GR", 5: "SD(two partial writes)"}
+
+
+def gen_api_cases(ctx):
+    """API level: (api, ntype, n, memory bytes).  Every interface x base type x flavour, several lengths and contents."""
+    r = ctx.rng
+    cases = []
+    reps = 2 if ctx.tier == "quick" else 12
+    for api in (1, 2, 3, 4, 5):
+        for base, w in W.items():
+            for fl in FLAV:
+                for k in range(reps):
+                    n = r.choice([1, 2, 3, 5, 8, 13]) if k else r.choice([2, 4, 7])
+                    if k % 2 == 0:
+                        # asymmetric values: every byte of a value differs, so any byte-order slip shows
+                        data = [(17 * i + 1 + 7 * (i % w)) & 255 for i in range(n * w)]
+                    else:
+                        data = [r.choice([0, 1, 127, 128, 255, r.randrange(256)]) for _ in range(n * w)]
+                    cases.append((api, base | fl, n, data))
+    return cases
+
+
+def run_api(ctx):
+    """raw file bytes of SD / Vdata / GR data vs the conversion specification, and the values read back"""
+    cases = gen_api_cases(ctx)
+    exe = ctx.harness("drive_convapi", ["drive_convapi.c"])
+    mod = ctx.model("conv_model", ["conv_main.ml"], ["conv_model"])
+    base = os.path.join(ctx.bdir, "harness", "c06-api-%d" % os.getpid())
+    with open(base + ".in", "w") as fh:
+        for api, nt, n, data in cases:
+            fh.write("%d %d %d %d %s\n" % (api, nt, n, len(data), " ".join(map(str, data))))
+    with open(base + ".min", "w") as fh:
+        # the model's view: one contiguous out-of-place DFACC_WRITE conversion of the same values
+        for api, nt, n, data in cases:
+            fh.write(fmt((nt, 2, n, 0, 0, 0, len(data), data + [0] * len(data))) + "\n")
+    rc, R = vc.run_lines(exe, base + ".in", timeout=1800, args=[base + ".hdf"])
+    rcm, MS = vc.run_lines(mod, base + ".min", timeout=900)
+    for suf in (".in", ".min", ".hdf"):
+        try:
+            os.unlink(base + suf)
+        except OSError:
+            pass
+    if rcm != 0 or len(MS) != len(cases):
+        raise vc.BuildError("model driver failed on the API cases (rc=%d)" % rcm)
+    stats = {"cases": len(cases), "compared": 0, "rejected_by_interface": 0, "harness_rc": rc}
+    rejected = {}
+    for i, (api, nt, n, data) in enumerate(cases):
+        line = "%d %d %d %d %s" % (api, nt, n, len(data), " ".join(map(str, data)))
+        s = MS[i].split(";")[1].strip()[2:]
+        r = R[i][2:] if i < len(R) and R[i].startswith("R ") else "crash"
+        if not s.startswith("ok"):
+            raise vc.BuildError("specification rejects a supported type in an API case: " + line[:80])
+        want = s.split()[1:][len(data):]
+        ctx.case(("api", api, nt, n, tuple(data[:64])), True,
+                 sample={"api": API_NAMES[api], "ntype": nt, "n": n, "memory": data[:16], "lib": r[:60]} if i % 53 == 0 else None)
+        if r.startswith("reject"):
+            # the interface does not take this number type at creation: outside "supported number type" for that
+            # interface (counted and listed in the evidence; nothing is stored, so nothing can read back wrong)
+            stats["rejected_by_interface"] += 1
+            rejected.setdefault(API_NAMES[api], set()).add(nt)
+            continue
+        what = None
+        if r == "crash" or r.startswith("fail"):
+            what = "interface accepted the type and then failed or crashed: " + r[:80]
+        else:
+            raw, back, two = [x.split() for x in r[2:].split("|")]
+            mem = list(map(str, data))
+            if raw != want:
+                what = "bytes stored in the file differ from the representation the number type designates"
+            elif back != mem:
+                what = "values read back through the interface differ from the values written"
+            elif two != mem:
+                what = "raw element converted with DFKconvert differs from the values written"
+        stats["compared"] += 1
+        if what:
+            ctx.violation("%s, number type %d: %s" % (API_NAMES[api], nt, what),
+                          "# C06 api replay: one line for harness drive_convapi (api nt n len bytes)\napi " + line +
+                          "\n# file bytes wanted (specification): " + " ".join(want) + "\n# library: " + r, found=True)
+            if len(ctx.violations) >= 3:
+                break
+    if (rc != 0 or len(R) < len(cases)) and not ctx.violations:
+        ctx.violation("API harness crashed (rc=%d) after %d of %d cases" % (rc, len(R), len(cases)),
+                      "# C06 api crash; first unprocessed case:\napi %d %d %d ..." % cases[min(len(R), len(cases) - 1)][:3] +
+                      "\n" + "\n".join(R[-10:]), found=True)
+    stats["rejected_types"] = {k: sorted(v) for k, v in rejected.items()}
+    ctx.corr("SD/Vdata/GR file bytes~spec, read back~written", **stats)
 
 
 def replay(ctx, path):
     lines = [l for l in open(path).read().splitlines() if l and not l.startswith("#")]
+    if lines and lines[0].startswith("api "):
+        exe = ctx.harness("drive_convapi", ["drive_convapi.c"])
+        tmp = path + ".in"
+        open(tmp, "w").write("\n".join(l[4:] for l in lines) + "\n")
+        print("\n".join(vc.run_lines(exe, tmp, args=[path + ".hdf"])[1]))
+        os.unlink(tmp)
+        return 0
     exe = ctx.harness("drive_conv", ["drive_conv.c"])
     mod = ctx.model("conv_model", ["conv_main.ml"], ["conv_model"])
     tmp = path + ".in"
